@@ -4141,6 +4141,7 @@ where
                 }
 
                 candidate.tri.validation_policy = self.tri.validation_policy;
+                candidate.tri.global_topology = self.tri.global_topology;
                 candidate.insertion_state.delaunay_repair_policy =
                     self.insertion_state.delaunay_repair_policy;
                 candidate.insertion_state.delaunay_check_policy =
